@@ -12,7 +12,8 @@ EXTENDS Integers, Sequences, FiniteSets, TLC, Json
 CONSTANTS Tier, Emit
 
 ProfileClasses == {"plain", "buildid0", "buildid1", "buildid2", "buildid3", "emptynames", "hugeids", "emptylabelkey", "edgeaddresses",
-                   "nomappings", "nosamples", "negativevalues", "nofunctions", "nilmapping", "weirdstrings", "zerovalues", "extremevalues", "partialunits"}
+                   "nomappings", "nosamples", "negativevalues", "nofunctions", "nilmapping", "weirdstrings", "zerovalues", "extremevalues", "partialunits",
+                   "zerocount", "oddlines"}
 Commands == {"top", "tree", "dot", "tags", "traces", "raw", "callgrind", "list", "disasm", "weblist", "peek", "proto", "topproto", "svg", "comments", "text"}
 RegexFlags == {"focus", "ignore", "hide", "show", "show_from", "tagshow", "taghide", "prune_from", "tagroot", "tagleaf"}
 RegexVals == {"f", "(", "", ".*", "[", "a**", "\\", "(?i)F", "f|", "^$"}
@@ -33,13 +34,17 @@ Options == { <<f, v>> : f \in RegexFlags, v \in RegexVals }
            \cup { <<f, v>> : f \in NumFlags, v \in NumVals }
            \cup OtherOpts \cup { <<"", "">> }
 
+\* the options that change which arithmetic a report does: combined with every profile class in the quick tier as well
+ShapeOpts == { <<"mean", "true">>, <<"call_tree", "true">>, <<"drop_negative", "true">>, <<"noinlines", "true">>, <<"lines", "true">>, <<"addresses", "true">>, <<"cum", "true">> }
+
 VARIABLES pc, prof, cmd, opt
 vars == <<pc, prof, cmd, opt>>
 Init == pc = "start" /\ prof = "" /\ cmd = "" /\ opt = <<"", "">>
-\* quick: every option with the plain profile and every command; every profile class with every command
+\* quick: every option with the plain profile and every command; every profile class with every command and shape option
 Choose == /\ pc = "start"
           /\ \/ (\E c \in Commands, o \in Options : prof' = "plain" /\ cmd' = c /\ opt' = o)
              \/ (\E p \in ProfileClasses, c \in Commands : prof' = p /\ cmd' = c /\ opt' = <<"", "">>)
+             \/ (\E p \in ProfileClasses, c \in Commands, o \in ShapeOpts : prof' = p /\ cmd' = c /\ opt' = o)
              \/ (Tier = "thorough" /\ \E p \in ProfileClasses, c \in {"top", "dot", "tags", "traces", "list"}, o \in Options : prof' = p /\ cmd' = c /\ opt' = o)
           /\ pc' = "run"
 Outcomes == {"output", "error"}
